@@ -283,6 +283,8 @@ class System(ListeningSystem, SendingSystem):
             current_id = utils.string_to_uint(commands_string[:2])
 
             if current_id in [1, 2]:
+                if len(commands_string) < 26:
+                    raise ValueError('Malformed command.')
                 command = commands_string[:26]
                 commands_string = commands_string[26:]
             elif current_id == 4:
